@@ -38,6 +38,7 @@ def run(ctx):
     R1 = ctx.rule('C13.R1', 'every path opened / stat-ed / listed in main() is an out-parameter of check_in_document_root on its true edge')
     R2 = ctx.rule('C13.R2', 'check_in_document_root normalises first; with symlink checking success needs canonical() and a component-wise prefix test against the root')
     R3 = ctx.rule('C13.R3', 'normalize_path never moves its output cursor below the leading slash')
+    R6 = ctx.rule('C13.R6', 'normalize_path cannot produce a climbing path, for every input up to a bounded length (E3, all byte values): the result starts with "/" and has no ".." component')
     R4 = ctx.rule('C13.R4', 'only regular files are streamed, and the mode tested belongs to the path that is opened')
     R5 = ctx.rule('C13.R5', 'directory listing only when enabled, dot names skipped, every name escaped / url-encoded')
 
@@ -86,11 +87,81 @@ def run(ctx):
     succ = q.nonfalse_returns(ck)
     ctx.check(bool(succ) and all(ck.only_through(r, list(g_root) + list(g_nosym)) for r in succ), R2, 'check_in_document_root:symlink-check-gates-success',
               'success with check_symlinks_ set without passing is_in_root', ck.where)
-    g_abs = ck.gate_edges(lambda atom, pol: ck.N(atom)['k'] == 'BinaryOperator' and ck.N(atom).get('op') == '!=' and ck.const_value(ck.N(atom)['ch'][1]) == ord('/') and normal in ck.subtree_refs(atom) and pol is False)
+    def first_char_is_slash(atom, pol):
+        n_ = ck.N(atom)
+        if n_['k'] != 'BinaryOperator' or n_.get('op') != '!=' or ck.const_value(n_['ch'][1]) != ord('/') or pol is not False:
+            return False
+        x = ck.strip(n_['ch'][0])
+        m_ = ck.N(x)
+        if m_['k'] == 'CXXOperatorCallExpr' and m_.get('op') == '[]' and len(m_['ch']) == 3:
+            return ck.ref_of(m_['ch'][1]) == normal and ck.const_value(m_['ch'][2]) == 0
+        if m_['k'] == 'CXXMemberCallExpr' and q.short_of(ck.bcallee(x) or '') in ('front',):
+            return ck.ref_of(ck.obj(x)) == normal
+        return False
+    g_abs = ck.gate_edges(first_char_is_slash)
     ctx.check(all(ck.only_through(r, g_abs) for r in succ), R2, 'check_in_document_root:path-starts-with-slash', 'success for a path that does not start with /', ck.where)
     bad = [i for i in ck.calls() if q.short_of(ck.callee(i)) in ('compare', 'find', 'rfind') and ck.N(i)['k'] == 'CXXMemberCallExpr' and ck.ref_of(ck.obj(i)) == normal]
     pf = [i for i in ck.calls() if (ck.callee(i) or '').endswith('is_file_prefix')]
     ctx.check(not bad and len(pf) >= 1, R2, 'check_in_document_root:alias-match-is-component-wise', 'alias matched with a raw string comparison', ck.where)
+    # an alias is applied (its target becomes the root, its prefix is cut off the path) only when it prefixes the path as whole components
+    rootv = [d['ref'] for i in ck.all_nodes() if ck.N(i)['k'] == 'DeclStmt' for d in ck.N(i)['decls'] if d.get('init') is not None and
+             any(model.strip_targs(r).endswith('file_server::document_root_') for r in ck.subtree_refs(d['init']))]
+    ctx.check(len(rootv) == 1, R2, 'check_in_document_root:root-starts-as-document-root', 'the root is not initialised with document_root_', ck.where)
+    if len(rootv) == 1:
+        rootv = rootv[0]
+        g_alias = q.call_gate(ck, lambda i: (ck.callee(i) or '').endswith('is_file_prefix') and normal in ck.subtree_refs(ck.args(i)[1]), True)
+        rw = [w for w in q.writes_to(ck, rootv) if ck.N(w)['k'] != 'DeclStmt']
+        cut = [w for w in q.writes_to(ck, normal) if ck.point_of(w) and any(q.short_of(ck.bcallee(j) or '') == 'substr' for j in ck.calls(w))]
+        for k_, w in enumerate(rw + cut):
+            ctx.check(bool(g_alias) and ck.only_through(w, g_alias), R2, 'check_in_document_root:alias-applied#%d:only-if-it-prefixes-the-path' % k_,
+                      'an alias target / a cut path is used although the alias does not prefix the request path as whole components', ck.loc(w))
+        for k_, w in enumerate(rw):
+            # alias_[i].second goes with the alias_[i].first that was tested
+            pc = [i for i in ck.calls() if (ck.callee(i) or '').endswith('is_file_prefix') and normal in ck.subtree_refs(ck.args(i)[1])]
+            idx_t = set(r for i in pc for r in q.deep_refs(ck, ck.args(i)[0]) if r.startswith('v:'))
+            idx_w = set(r for r in q.deep_refs(ck, ck.N(w)['ch'][-1]) if r.startswith('v:'))
+            second = any(model.strip_targs(r).endswith('pair::second') for r in ck.subtree_refs(ck.N(w)['ch'][-1]))
+            ctx.check(second and bool(idx_t & idx_w), R2, 'check_in_document_root:alias-applied#%d:target-of-the-tested-alias' % k_, 'the root is taken from a different alias than the one tested', ck.loc(w))
+        # one alias at most: once an alias was applied no further alias is tried on the already cut path
+        for k_, w in enumerate(rw):
+            lp_ = q.enclosing_loops(ck, w)
+            if not lp_:
+                continue
+            L_ = lp_[0]
+            leaves = [j for j in ck.walk(ck.N(L_)['body']) if (ck.N(j)['k'] == 'BreakStmt' and q.enclosing_loops(ck, j)[0] == L_) or ck.N(j)['k'] == 'ReturnStmt']
+            again = [i for i in ck.calls(L_) if (ck.callee(i) or '').endswith('is_file_prefix')]
+            # from the application, the next alias test is unreachable without leaving the loop
+            pw = ck.last_point_of(w)
+            reach = ck.reachable_blocks(start=pw[0], cut_blocks=[ck.point_of(j)[0] for j in leaves if ck.point_of(j)[0] != pw[0]])
+            later_same_block = [j for j in leaves if ck.point_of(j)[0] == pw[0] and ck.point_of(j)[1] > pw[1]]
+            okf = bool(leaves) and (bool(later_same_block) or not any(ck.point_of(i)[0] in reach and ck.point_of(i)[0] != pw[0] for i in again))
+            ctx.check(okf, R2, 'check_in_document_root:alias-applied#%d:then-no-further-alias' % k_, 'after one alias was applied a second alias can be matched against the already cut path', ck.loc(w))
+        # without symlink checking the result is root + path with at most one trailing separator removed
+        realp_ = q.param_by_index(ck, 1)
+        asg = [w for w in q.writes_to(ck, realp_) if ck.N(w)['k'] == 'CXXOperatorCallExpr' and ck.N(w).get('op') == '=']
+        oka = len(asg) == 1
+        if oka:
+            rhs = ck.strip(ck.N(asg[0])['ch'][2])
+            pl = [j for j in ck.walk(rhs) if ck.N(j)['k'] == 'CXXOperatorCallExpr' and ck.N(j).get('op') == '+']
+            oka = len(pl) == 1 and ck.ref_of(ck.N(pl[0])['ch'][1]) == rootv and ck.ref_of(ck.N(pl[0])['ch'][2]) == normal
+        ctx.check(oka, R2, 'check_in_document_root:no-symlink-branch:result-is-root-plus-path', 'the unchecked result is not root + normalised path', ck.loc(asg[0]) if asg else ck.where)
+        SYc = q.symb_with_locals(ck)
+        RS = lin.Lin.atom(realp_ + '.size()')
+        for k_, i in enumerate([i for i in ck.calls() if ck.N(i)['k'] == 'CXXMemberCallExpr' and ck.obj(i) is not None and ck.ref_of(ck.obj(i)) == realp_ and
+                                q.short_of(ck.bcallee(i) or '') in ('resize', 'erase', 'pop_back', 'clear', 'assign', 'append', 'replace', 'insert', 'push_back')]):
+            sh_ = q.short_of(ck.bcallee(i) or '')
+            okr = False
+            if sh_ in ('resize', 'pop_back'):
+                by_one = sh_ == 'pop_back'
+                if sh_ == 'resize':
+                    d_ = _subst(SYc.lin(ck.args(i)[0]), ck, realp_, RS) - RS
+                    by_one = d_.is_const() and d_.c == -1
+                g_sep = ck.gate_edges(lambda atom, pol: ck.N(atom)['k'] in model.CALL_KINDS and (ck.callee(atom) or '').endswith('is_directory_separator') and realp_ in ck.subtree_refs(atom) and pol is True and
+                                      any(ck.N(j)['k'] == 'CXXOperatorCallExpr' and ck.N(j).get('op') == '[]' and (_subst(SYc.lin(ck.N(j)['ch'][2]), ck, realp_, RS) - RS).is_const() and
+                                          (_subst(SYc.lin(ck.N(j)['ch'][2]), ck, realp_, RS) - RS).c == -1 for j in ck.walk(atom)))
+                okr = by_one and bool(g_sep) and ck.only_through(i, g_sep) and q.before(ck, asg[0], i) if asg else False
+            ctx.check(okr, R2, 'check_in_document_root:no-symlink-branch:%s#%d:only-one-trailing-separator' % (sh_, k_),
+                      'the unchecked result is shortened / edited by something other than dropping one trailing separator: it can name a sibling of the root', ck.loc(i))
     # the root handed to is_in_root / concatenated is document_root_ or the matched alias target
     ir = P.fn(S + '::is_in_root')
     g_c = q.call_gate(ir, lambda i: ir.bcallee(i) == S + '::canonical', True)
@@ -193,6 +264,137 @@ def run(ctx):
         ctx.check(okd and direct, R3, 'normalize_path:decrement#%d:only-above-floor' % k, 'output cursor decremented without the `out > begin+1` guard', nz.loc(d))
     rs = [i for i in nz.calls() if q.short_of(nz.callee(i)) == 'resize' and nz.ref_of(nz.obj(i)) == pathp]
     ctx.check(len(rs) == 1 and q.always_before_exit(nz, rs), R3, 'normalize_path:result-truncated-to-cursor', 'result is not cut at the output cursor', nz.where)
+
+    # ---------------- R6 normalize_path exact on all short inputs (E3)
+    from vlib import absint
+    from vlib.absint import AV, Arr, PV, Cell, Split, Unsupported
+    import itertools as _it
+
+    def norm_hooks():
+        def h_find(it, fn, i, env):
+            a = [it.rvalue(fn, x, env) for x in fn.args(i)]
+            if not (len(a) == 3 and isinstance(a[0], PV) and isinstance(a[1], PV) and isinstance(a[2], AV) and a[2].is_const()):
+                raise Unsupported('std::find shape')
+            for j in range(a[0].off, a[1].off):
+                e = it.load(('elem', PV(a[0].arr, j)))
+                if e.is_const():
+                    if e.lo == a[2].lo:
+                        return PV(a[0].arr, j)
+                    continue
+                if e.vals is not None and a[2].lo not in e.vals:
+                    continue
+                if e.vals is None and not (e.lo <= a[2].lo <= e.hi):
+                    continue
+                it.split_on(e.deps)
+            return a[1]
+
+        def h_copy(it, fn, i, env):
+            a = [it.rvalue(fn, x, env) for x in fn.args(i)]
+            if not (len(a) == 3 and all(isinstance(x, PV) for x in a)):
+                raise Unsupported('std::copy shape')
+            n_ = a[1].off - a[0].off
+            for j in range(n_):
+                it.store(('elem', PV(a[2].arr, a[2].off + j)), it.load(('elem', PV(a[0].arr, a[0].off + j))))
+            return PV(a[2].arr, a[2].off + n_)
+
+        def h_resize(it, fn, i, env):
+            ov = it.rvalue(fn, fn.obj(i), env)
+            k_ = it.rvalue(fn, fn.args(i)[0], env)
+            if not (isinstance(ov, Arr) and isinstance(k_, AV)):
+                raise Unsupported('resize shape')
+            if not k_.is_const():
+                it.split_on(k_.deps)
+            if k_.lo < 0 or k_.lo > len(ov.elems) - 1:
+                raise absint.OutOfBounds('resize(%d) of a string of %d bytes' % (k_.lo, len(ov.elems) - 1))
+            del ov.elems[k_.lo:]
+            ov.elems.append(AV.const(0))
+            return AV.const(0)
+
+        def h_empty(it, fn, i, env):
+            ov = it.rvalue(fn, fn.obj(i), env)
+            if isinstance(ov, Arr):
+                return AV.const(1 if len(ov.elems) <= 1 else 0)
+            return NotImplemented
+
+        def h_plus(it, fn, i, env):
+            a = [it.rvalue(fn, x, env) for x in fn.args(i)]
+            out = []
+            for x in a:
+                if isinstance(x, Arr):
+                    out += x.elems[:-1]
+                elif isinstance(x, PV):
+                    j = x.off
+                    while True:
+                        e = it.load(('elem', PV(x.arr, j)))
+                        if e.is_const() and e.lo == 0:
+                            break
+                        out.append(e)
+                        j += 1
+                else:
+                    raise Unsupported('operator+ operand')
+            return Arr(out + [AV.const(0)], 'str:tmp')
+
+        def h_assign(it, fn, i, env):
+            n_ = fn.N(i)
+            if n_['k'] != 'CXXOperatorCallExpr' or n_.get('op') != '=':
+                return NotImplemented
+            dst = it.rvalue(fn, n_['ch'][1], env)
+            src = it.rvalue(fn, n_['ch'][2], env)
+            if isinstance(dst, Arr) and isinstance(src, Arr):
+                dst.elems[:] = list(src.elems)        # in place: iterators and references to the string stay bound to it
+                return dst
+            return NotImplemented
+        return {'std::find': h_find, 'std::copy': h_copy, 'std::basic_string::resize': h_resize, 'std::basic_string::empty': h_empty, 'std::operator+': h_plus,
+                'std::basic_string::operator=': h_assign}
+
+    def resolve(bs):
+        st = []
+        for comp in bytes(bs).split(b'/'):
+            if comp in (b'', b'.'):
+                continue
+            if comp == b'..':
+                if st:
+                    st.pop()
+                continue
+            st.append(comp)
+        return b'/' + b'/'.join(st)
+
+    def run_norm(L):
+        def runs(it):
+            a = Arr([it.inbyte(k_) for k_ in range(L)] + [AV.const(0)], 'str:path')
+            it.hooks = norm_hooks()
+            c = Cell(a)
+            it.call_fn(nz, [c])
+            return c.v
+        nb = 0
+        CLS = [(-128, 45), (46, 46), (47, 47), (48, 127)]        # '.', '/', and everything below / above them
+        for (bx, r, it) in absint.explore(P, runs, [list(c_) for c_ in _it.product(CLS, repeat=L)]):
+            nb += 1
+            if not isinstance(r, Arr):
+                return 'box %s: result is not a string' % (bx,), nb
+            outb = r.elems[:-1]
+            cands = [sorted(set([lo, hi]) | set(x for x in (46, 47) if lo <= x <= hi)) for (lo, hi) in bx]
+            for combo in _it.product(*cands):
+                inp = bytes(v & 0xFF for v in combo)
+                conc = []
+                for e in outb:
+                    if e.is_const():
+                        conc.append(e.lo & 0xFF)
+                    elif len(e.deps) == 1:
+                        conc.append(combo[next(iter(e.deps))] & 0xFF)      # a copied input byte
+                    else:
+                        return 'box %s: output byte %r is neither constant nor a copy of one input byte' % (bx, e), nb
+                got = bytes(conc)
+                # what containment needs (with symlink checking off the result is appended to the root as it is): rooted, and no
+                # component that climbs.  (That the result also *equals* the lexical resolution is not demanded: a normaliser that
+                # keeps a trailing slash or an empty component still serves from inside the root.)
+                if not got.startswith(b'/') or b'..' in got.split(b'/'):
+                    return 'input %r: normalised to %r (lexical resolution: %r): the result can climb out of the root it is appended to' % (inp, got, resolve(inp)), nb
+        return None, nb
+    for L in range(0, (6 if ctx.tier == 'quick' else 8) + 1):
+        bad, nb = run_norm(L)
+        ctx.check(bad is None, R6, 'normalize_path:all-inputs-of-%d-bytes' % L, bad or '', nz.where, detail={'boxes': nb})
+    ctx.floor(R6, 5)
 
     # ---------------- R4
     g_reg = m.gate_edges(lambda atom, pol: m.N(atom)['k'] == 'BinaryOperator' and m.N(atom).get('op') == '&' and m.const_value(m.N(atom)['ch'][1]) == 0o100000 and pol is True)
